@@ -34,7 +34,13 @@ class DocstringParser(AbstractDocstringParser):
     def __init__(self, parser: Parser, package_path: Path):
         while True:
             try:
-                self.griffe_build = load(package_path, docstring_parser=parser)
+                # Only the directory of the package is searched: where the package sits below the working directory or
+                # another entry of the module search path must not decide what it is called
+                self.griffe_build = load(
+                    package_path,
+                    search_paths=[str(package_path.parent)],
+                    docstring_parser=parser,
+                )
                 break
             except KeyError:
                 package_path = package_path.parent
